@@ -285,6 +285,30 @@ def state_restore_tree(src):
             f'def centersFromTrainIndices : Bool := {"true" if centers else "false"}')
 
 
+def state_predict_reads(src):
+    """Attributes of the estimator that `fit` assigns (learned state) and that the prediction-time code reads, against the
+    attributes `load_state_dict` assigns.  A learned attribute read at prediction time and not restored by a load makes the
+    loaded model predict from the constructor's default for it."""
+    import gen_fitobj as g
+    pred = []
+    for root in ('predict', 'predict_proba', 'get_grads'):
+        for m in g.call_graph_closure(src, root):
+            if m not in pred:
+                pred.append(m)
+    if not pred:
+        raise Unsupported('no prediction entry point found')
+    p_stores, p_loads = g.attr_stores_loads(src, pred)
+    f_stores, _ = g.attr_stores_loads(src, g.call_graph_closure(src, 'fit'))
+    l_stores, _ = g.attr_stores_loads(src, g.call_graph_closure(src, 'load_state_dict'))
+    # a lazily built cache (assigned inside the prediction code itself) is rebuilt by the loaded model on first use
+    learned = sorted((set(p_loads) & set(f_stores)) - set(p_stores))
+    q = lambda l: '[' + ', '.join('"' + a + '"' for a in l) + ']'  # noqa: E731
+    return ('/-- Attributes assigned in the call graph of `fit` and read in the call graph of `predict` / `predict_proba` / `get_grads`\n'
+            '(caches assigned by the prediction code itself excluded), and the attributes assigned in the call graph of `load_state_dict`. -/\n'
+            f'def learnedStateReadAtPrediction : List String := {q(learned)}\n'
+            f'def attributesAssignedByLoad : List String := {q(sorted(set(l_stores)))}')
+
+
 py2lean.register('State', XRFM_PY, [], [
     ('decls', lambda s: DECLS),
     ('exportedM', state_export_model),
@@ -292,4 +316,5 @@ py2lean.register('State', XRFM_PY, [], [
     ('paramTree', state_param_tree),
     ('restoredM', state_restore_model),
     ('restoredTree', state_restore_tree),
+    ('predictReads', state_predict_reads),
 ])
